@@ -208,6 +208,47 @@ class Adapter:
     def e_SliceIndexNode(self,n,ctx):
         f=lambda x: None if x is None else self.expr(x)
         return ast.Subscript(self.expr(n.base), ast.Slice(f(n.start), f(n.stop), None), ctx)
+    def _comp_parts(self, loop):
+        """(generators, innermost body node) of the nested for / if statements of a comprehension"""
+        gens = []
+        node = loop
+        while True:
+            if isinstance(node, N.ForInStatNode):
+                it = node.iterator.sequence if isinstance(node.iterator, E.IteratorNode) else node.iterator
+                gens.append(ast.comprehension(self.expr(node.target, ast.Store()), self.expr(it), [], 0))
+                node = node.body
+            elif isinstance(node, N.IfStatNode) and len(node.if_clauses) == 1 and node.else_clause is None and gens:
+                gens[-1].ifs.append(self.expr(node.if_clauses[0].condition))
+                node = node.if_clauses[0].body
+            elif isinstance(node, N.StatListNode) and len(node.stats) == 1:
+                node = node.stats[0]
+            else:
+                return gens, node
+    def e_ComprehensionNode(self,n,ctx):
+        gens, inner = self._comp_parts(n.loop)
+        kind = getattr(n.type, 'name', None)
+        if isinstance(inner, E.DictComprehensionAppendNode):
+            item = getattr(inner, 'dict_item', None)
+            k_, v_ = (item.key, item.value) if item is not None else (inner.key_expr, inner.value_expr)
+            return ast.DictComp(self.expr(k_), self.expr(v_), gens)
+        if isinstance(inner, E.ComprehensionAppendNode):
+            if kind == 'set':
+                return ast.SetComp(self.expr(inner.expr), gens)
+            return ast.ListComp(self.expr(inner.expr), gens)
+        raise Unsupported('comprehension body '+type(inner).__name__+' at %s'%(n.pos[1:],))
+    def e_GeneratorExpressionNode(self,n,ctx):
+        gens, inner = self._comp_parts(n.loop)
+        if isinstance(inner, N.ExprStatNode):
+            inner = inner.expr
+        arg = getattr(inner, 'arg', None)
+        if isinstance(inner, E.YieldExprNode) and arg is not None:
+            return ast.GeneratorExp(self.expr(arg), gens)
+        raise Unsupported('generator body '+type(inner).__name__+' at %s'%(n.pos[1:],))
+    def e_LambdaNode(self,n,ctx):
+        a = self.args(n.args)
+        for x in a.posonlyargs + a.args + a.kwonlyargs:
+            x.annotation = None
+        return ast.Lambda(a, self.expr(n.result_expr))
     def e_CondExprNode(self,n,ctx): return ast.IfExp(self.expr(getattr(n,'condition',None) or n.test), self.expr(n.true_val), self.expr(n.false_val))
 
 def pyx_text_to_ast(text, name='x.pyx'):
